@@ -453,10 +453,11 @@ def registry():
     def _(rng, form):
         seed = int(rng.randint(10 ** 6))
 
-        def call(model):
+        def call(model, readings):
             p = isn.Parameters.from_EstimationModel(model, seed)
-            return p.transform, p.bias, p.noise, p.bias_walk
-        return call, [est_model(rng)], {}
+            out = p.apply(readings, 'rate')       # the seeded generator must also drive the noise drawn later
+            return p.transform, p.bias, p.noise, p.bias_walk, out, p.data_frame
+        return call, [est_model(rng), imu_table(rng)[IMU[:3]]], {}
 
     @reg('inertial_sensor.apply_imu_parameters', kind='imu')
     def _(rng, form):
